@@ -29,9 +29,33 @@ func EnumPDFFields(spec pdfw.DocSpec) []Fault {
 	}
 	g := pdfw.GenerateHooked(spec, hook, nil)
 	root := g.Built.Root.Num
+	members := map[int][]int{}
+	for _, model := range g.Built.Model {
+		for _, num := range pdfw.SortedNums(model) {
+			if c := model[num].InStm; c != 0 {
+				dup := false
+				for _, m := range members[c] {
+					dup = dup || m == num
+				}
+				if !dup && len(members[c]) < 3 {
+					members[c] = append(members[c], num)
+				}
+			}
+		}
+	}
 	var out []Fault
 	for _, rc := range recs {
 		switch rc.kind {
+		case "plain":
+			// token-level damage inside text-like stream data (content programs, CMaps),
+			// applied before encoding so that it survives any filter chain
+			data := rc.obj.(pdfw.Str).B
+			if !looksLikeText(data) {
+				break
+			}
+			for _, tf := range EnumPDFTokens(data) {
+				out = append(out, Fault{Layer: "pdfobj", Kind: "stream-text", A: int64(rc.num), B: tf.A<<20 | tf.B, S: tf.S})
+			}
 		case "raw":
 			for v := 0; v < 5; v++ {
 				out = append(out, Fault{Layer: "pdfobj", Kind: "stream-body", A: int64(rc.num), B: int64(v)})
@@ -44,6 +68,14 @@ func EnumPDFFields(spec pdfw.DocSpec) []Fault {
 			walk(rc.obj, "", func(path string, v pdfw.Obj) {
 				for i := 0; i < variants(v, root); i++ {
 					out = append(out, Fault{Layer: "pdfobj", Kind: k, A: int64(rc.num), B: int64(i), S: path})
+				}
+				if _, isInt := v.(int); isInt && rc.kind == "obj" {
+					// a number replaced by a reference: to the object itself, and to the objects
+					// stored inside it when it is an object stream (loading those needs the stream)
+					out = append(out, Fault{Layer: "pdfobj", Kind: "field-ref", A: int64(rc.num), B: int64(rc.num), S: path})
+					for _, m := range members[rc.num] {
+						out = append(out, Fault{Layer: "pdfobj", Kind: "field-ref", A: int64(rc.num), B: int64(m), S: path})
+					}
 				}
 			})
 		}
@@ -199,6 +231,52 @@ func mutateAt(o pdfw.Obj, steps []string, variant, self, root int) (pdfw.Obj, bo
 	return o, false
 }
 
+// replaceAt puts nv at the given path.
+func replaceAt(o pdfw.Obj, steps []string, nv pdfw.Obj) (pdfw.Obj, bool) {
+	if len(steps) == 0 {
+		return nv, true
+	}
+	switch v := o.(type) {
+	case pdfw.Dict:
+		if !strings.HasPrefix(steps[0], "K:") {
+			return o, false
+		}
+		out := append(pdfw.Dict{}, v...)
+		for i, kv := range out {
+			if kv.K == steps[0][2:] {
+				r, _ := replaceAt(kv.V, steps[1:], nv)
+				out[i] = pdfw.KV{K: kv.K, V: r}
+			}
+		}
+		return out, true
+	case pdfw.Arr:
+		if !strings.HasPrefix(steps[0], "I:") {
+			return o, false
+		}
+		idx, _ := strconv.Atoi(steps[0][2:])
+		out := append(pdfw.Arr{}, v...)
+		if idx < len(out) {
+			r, _ := replaceAt(out[idx], steps[1:], nv)
+			out[idx] = r
+		}
+		return out, true
+	}
+	return o, false
+}
+
+func looksLikeText(b []byte) bool {
+	if len(b) == 0 || len(b) > 6000 {
+		return false
+	}
+	bad := 0
+	for _, c := range b {
+		if c < 9 || (c > 13 && c < 32) || c > 126 {
+			bad++
+		}
+	}
+	return bad*20 < len(b)
+}
+
 // ApplyPDFFields regenerates the document with the given object-level faults.
 func ApplyPDFFields(spec pdfw.DocSpec, fs []Fault) []byte {
 	root := 0
@@ -208,6 +286,13 @@ func ApplyPDFFields(spec pdfw.DocSpec, fs []Fault) []byte {
 				continue
 			}
 			switch {
+			case f.Kind == "stream-text" && kind == "plain":
+				s := o.(pdfw.Str)
+				o = pdfw.Str{B: ApplyBytes(s.B, Fault{Kind: "replace", A: f.B >> 20, B: f.B & 0xFFFFF, S: f.S})}
+			case f.Kind == "field-ref" && kind == "obj":
+				steps := strings.Split(strings.TrimPrefix(f.S, "/"), "/")
+				no, _ := replaceAt(o, steps, pdfw.Ref{Num: int(f.B)})
+				o = no
 			case f.Kind == "stream-body" && kind == "raw":
 				s := o.(pdfw.Str)
 				b := append([]byte{}, s.B...)
